@@ -1,0 +1,15 @@
+//go:build verif
+
+package fuse
+
+import "bazil.org/fuse/fs"
+
+// VerifAttachServer gives an unmounted file system a detached FUSE server so
+// that handlers which notify the kernel do not dereference a nil server when
+// they are driven in-process by the verification harness. A detached server
+// answers every notification with ErrNotCached, which callers already ignore.
+func (fsys *FileSystem) VerifAttachServer() {
+	if fsys.server == nil {
+		fsys.server = fs.New(nil, nil)
+	}
+}
